@@ -10,7 +10,7 @@ Import ListNotations.
 Inductive hop := HGet | HCache (ttl : Z) (r : rid) | HHfp.
 
 Record ch_case := {
-  ch_kind : nat;               (* 0 entry-handoff, 1 zone-handoff, 2 purge-window *)
+  ch_kind : nat;               (* 0 entry-handoff, 1 zone-handoff, 2 purge-window (any other number), 3 lookup-purge-get *)
   ch_queue : list hop;         (* kind 0: operations queued on the entry lock, in order *)
   ch_requests : nat;           (* kind 1: requests queued on the shard lock; kind 2: requests arriving during the purge *)
   ch_obs1 : list tobs;         (* every Get after the queue drained *)
@@ -76,6 +76,14 @@ Definition ch_model (c : ch_case) : list tobs * list tobs :=
       let s2 := settle (3 + n) order s1 in
       let s3 := settle (3 + n) order (complete_fetchers (fun _ => 100) n s2) in
       (obs_gets s2 0 n, obs_gets s3 0 n)
+  | 3 =>
+      (* a fetch in flight with one parked request; a third request has looked the entry up (it holds the
+         entry) when the key is purged, and only then runs get() on the entry it holds; then the fetch completes *)
+      let s0 := settle 3 [0; 1] (run_skip (init t0_ms 0 false false) (get_section 0 ++ get_section 1)) in
+      let s1 := run_skip s0 [Arrive false; Run 2 ch0; Purge true] in
+      let s2 := settle 3 [2; 1; 0] s1 in
+      let s3 := settle 4 [0; 1; 2] (run_skip s2 (complete_section 0 (OCacheable 60 1) 2)) in
+      (obs_gets s2 1 2, obs_gets s3 1 2)
   | _ =>
       let n := S (ch_requests c) in
       let s0 := run_skip (init t0_ms 0 true false) (get_section 0 ++ complete_section 0 (OCacheable 60 1) 1) in
@@ -125,6 +133,11 @@ Proof. vm_compute. reflexivity. Qed.
 Example ch_model_cold_burst :
   fst (ch_model {| ch_kind := 1; ch_queue := []; ch_requests := 3; ch_obs1 := []; ch_obs2 := [] |})
   = [TParked; TParked; TUpstream LFetching].
+Proof. vm_compute. reflexivity. Qed.
+
+Example ch_model_lookup_purge_get :
+  ch_model {| ch_kind := 3; ch_queue := []; ch_requests := 0; ch_obs1 := []; ch_obs2 := [] |}
+  = ([TParked; TParked], [TDone LHit (Some 1) 0; TDone LHit (Some 1) 0]).
 Proof. vm_compute. reflexivity. Qed.
 
 Example ch_model_purge_window :
